@@ -1,6 +1,84 @@
-(* Property C04 — value-spec algebra is sound.  Only statements and [exact]; proofs in Proofs/Typing*.v. *)
-From PG Require Import Common.Tactics Model.Typing Proofs.TypingBasics.
+(* Property C04 — value-spec algebra is sound: idempotent apply, compatibility / extension narrow.
+   Only statements and [exact]; proofs are in Proofs/Typing*.v.  Model: Model/Typing.v.
 
-Theorem C04_str_eqb_refl : forall s, str_eqb s s = true.
-Proof. exact str_eqb_refl. Qed.
-Print Assumptions C04_str_eqb_refl.
+   Reading of the property used here (see design/C04.md): "a value of a spec" is a value the spec
+   returns unchanged ([conforms s v := apply false s v = Ok v]; by idempotence these are exactly
+   the values apply returns), without MISSING_VALUE inside ([total]).  The literal reading over
+   every *input* a spec accepts is refuted below (a sender completes or replaces its input from
+   its own default / frozen value). *)
+From PG Require Import Common.Tactics Model.Typing Proofs.TypingBasics Proofs.TypingApply
+                       Proofs.TypingCompat Proofs.TypingTheorems.
+Local Open Scope Z_scope.
+
+(* Applying a spec to a value it accepts yields a value it accepts again and maps to itself:
+   Bool/Int/Float/Str/Enum/Object/Any/Dict() and List/Tuple (fixed, variable) over them, any
+   ranges, sizes, flags (noneable, default, frozen), nesting, allow_partial or not.
+   Missing from the full statement: Dict with a schema, Union (see the refutation). *)
+Theorem C04_apply_idempotent_partial : forall s, no_union s = true -> no_schema s = true ->
+  forall p v v', apply p s v = Ok v' -> apply p s v' = Ok v'.
+Proof. exact apply_idempotent_seq. Qed.
+Print Assumptions C04_apply_idempotent_partial.
+
+(* Union.apply is not idempotent in general (open finding): the accepting candidate's frozen value
+   is dispatched to another candidate the second time. *)
+Theorem C04_apply_idempotent_union_refuted :
+  exists s v v', apply false s v = Ok v' /\ apply false s v' = Err ValueErr.
+Proof. exact union_idempotence_refuted. Qed.
+Print Assumptions C04_apply_idempotent_union_refuted.
+
+(* A spec's own default is acceptable to it: the constructors store what apply (allow_partial)
+   returns for the given default, then set the frozen flag. *)
+Theorem C04_default_acceptable_partial : forall s d d' fz,
+  no_union s = true -> no_schema s = true ->
+  apply true (unfreeze s) d = Ok d' ->
+  apply true (with_mods s (Mods (noneable (mods_of s)) (Some d') fz)) d' = Ok d'.
+Proof. exact default_acceptable_seq. Qed.
+Print Assumptions C04_default_acceptable_partial.
+
+(* If a declares itself compatible with b, every value of b is accepted by a.  With every quirk
+   flag off (the repaired behaviour), for a receiver without Union and without Dict schema
+   (the sender b is arbitrary). *)
+Theorem C04_compat_sound_partial : forall q a b,
+  no_quirks q -> no_union a = true -> no_schema a = true -> wf a -> wf b ->
+  compat q a b = true ->
+  forall v, total v = true -> conforms b v -> accepts a v.
+Proof. intros q a b NQ NU NS. exact (compat_sound_seq q NQ a NU NS b). Qed.
+Print Assumptions C04_compat_sound_partial.
+
+(* What the current code does (flag on): each open finding refutes the statement. *)
+Theorem C04_compat_list_min_size_refuted :
+  exists a b v, compat (Quirks true false false false false) a b = true /\ wf a /\ wf b /\
+                total v = true /\ conforms b v /\ apply false a v = Err ValueErr.
+Proof. exact list_min_refuted. Qed.
+Print Assumptions C04_compat_list_min_size_refuted.
+
+Theorem C04_compat_frozen_receiver_refuted :
+  exists a b v, compat (Quirks false true false false false) a b = true /\ wf a /\ wf b /\
+                total v = true /\ conforms b v /\ apply false a v = Err ValueErr.
+Proof. exact frozen_receiver_refuted. Qed.
+Print Assumptions C04_compat_frozen_receiver_refuted.
+
+Theorem C04_compat_enum_frozen_shortcut_refuted :
+  exists a b v, compat (Quirks false false true false false) a b = true /\ wf a /\ wf b /\
+                total v = true /\ conforms b v /\ apply false a v = Err TypeErr.
+Proof. exact enum_shortcut_refuted. Qed.
+Print Assumptions C04_compat_enum_frozen_shortcut_refuted.
+
+Theorem C04_compat_enum_subset_refuted :
+  exists a b v, compat (Quirks false false false true false) a b = true /\ wf a /\ wf b /\
+                total v = true /\ conforms b v /\ apply false a v = Err TypeErr.
+Proof. exact enum_subset_refuted. Qed.
+Print Assumptions C04_compat_enum_subset_refuted.
+
+(* A Union receiver is unsound whatever the flags (open finding without a flag). *)
+Theorem C04_compat_union_receiver_refuted :
+  exists a b v, compat noq a b = true /\ wf a /\ wf b /\
+                total v = true /\ conforms b v /\ apply false a v = Err ValueErr.
+Proof. exact union_receiver_refuted. Qed.
+Print Assumptions C04_compat_union_receiver_refuted.
+
+(* The literal reading over inputs fails by design. *)
+Theorem C04_compat_inputs_refuted :
+  exists a b v, compat noq a b = true /\ wf a /\ wf b /\ accepts b v /\ apply false a v = Err ValueErr.
+Proof. exact literal_reading_refuted. Qed.
+Print Assumptions C04_compat_inputs_refuted.
